@@ -35,7 +35,10 @@ LEAN = os.path.join(ROOT, "lean")
 REPO = os.environ.get("BEZIER_REPO", "/repo")
 PY = sys.executable
 TABLES = [os.path.join(LEAN, "BezierVerif", "Tables", "SrcPy.lean"),
-          os.path.join(LEAN, "BezierVerif", "Tables", "SrcPyReal.lean")]
+          os.path.join(LEAN, "BezierVerif", "Tables", "SrcPyReal.lean"),
+          os.path.join(LEAN, "BezierVerif", "Tables", "SrcPyKernels.lean")]
+OWN_MODULES = {"import BezierVerif.Generated.SrcPy", "import BezierVerif.Tables.SrcPy", "import BezierVerif.Tables.SrcPyReal",
+               "import BezierVerif.Tables.SrcPyKernels"}
 
 # (label, file, function, old text, new text)   -- old text must occur exactly once inside the function
 MUTATIONS = [
@@ -85,6 +88,69 @@ MUTATIONS = [
      "if _helpers.in_interval(s, 0.0, s_min):", "if _helpers.in_interval(s, 0.0, s_max):"),
     ("two_by_two_det: transposed sign", "triangle_helpers", "two_by_two_det",
      "return mat[0, 0] * mat[1, 1] - mat[0, 1] * mat[1, 0]", "return mat[0, 1] * mat[1, 0] - mat[0, 0] * mat[1, 1]"),
+    # ---- phase 2: loops, lists, the stateful pieces of the pipeline, the evaluation kernels
+    ("is_separating: min becomes max", "helpers", "is_separating",
+     "min_param = min(min_param, param)", "min_param = max(min_param, param)"),
+    ("is_separating: or becomes and", "helpers", "is_separating",
+     "return params[0][0] > params[1][1] or params[0][1] < params[1][0]",
+     "return params[0][0] > params[1][1] and params[0][1] < params[1][0]"),
+    ("is_separating: initial value of min_param", "helpers", "is_separating",
+     "min_param = np.inf", "min_param = -np.inf"),
+    ("polygon_collide: previous vertex index - 1 becomes index - 2", "helpers", "polygon_collide",
+     "direction[:] = polygon[:, index] - polygon[:, index - 1]", "direction[:] = polygon[:, index] - polygon[:, index - 2]"),
+    ("polygon_collide: answer on a separating edge", "helpers", "polygon_collide",
+     "                return False", "                return True"),
+    ("in_sorted: >= becomes >", "helpers", "in_sorted",
+     "if index >= len(values):", "if index > len(values):"),
+    ("in_sorted: == becomes !=", "helpers", "in_sorted",
+     "return values[index] == value", "return values[index] != value"),
+    ("add_intersection: near-zero test on the wrong parameter", "geometric_intersection", "add_intersection",
+     "if s < intersection_helpers.ZERO_THRESHOLD:", "if t < intersection_helpers.ZERO_THRESHOLD:"),
+    ("add_intersection: < becomes <=", "geometric_intersection", "add_intersection",
+     "            norm_update\n            < intersection_helpers", "            norm_update\n            <= intersection_helpers"),
+    ("add_intersection: appended pair swapped", "geometric_intersection", "add_intersection",
+     "            return\n\n    intersections.append((s, t))", "            return\n\n    intersections.append((t, s))"),
+    ("intersection_helpers.NEWTON_ERROR_RATIO: changed constant", "intersection_helpers", None,
+     "NEWTON_ERROR_RATIO = 0.5**36", "NEWTON_ERROR_RATIO = 0.5**35"),
+    ("endpoint_check: start/end swapped", "geometric_intersection", "endpoint_check",
+     "orig_s = (1 - s) * first.start + s * first.end", "orig_s = (1 - s) * first.end + s * first.start"),
+    ("tangent_bbox_intersection: parameter of the third pair", "geometric_intersection", "tangent_bbox_intersection",
+     "first, node_first2, 1.0, second, node_second1, 0.0, intersections",
+     "first, node_first2, 0.0, second, node_second1, 0.0, intersections"),
+    ("linearization_error: changed constant", "geometric_intersection", "linearization_error",
+     "multiplier = 0.125 * degree * (degree - 1)", "multiplier = 0.25 * degree * (degree - 1)"),
+    ("linearization_error: second difference weight", "geometric_intersection", "linearization_error",
+     "second_deriv = nodes[:, :-2] - 2.0 * nodes[:, 1:-1] + nodes[:, 2:]",
+     "second_deriv = nodes[:, :-2] - 3.0 * nodes[:, 1:-1] + nodes[:, 2:]"),
+    ("linearization_error: slice bound", "geometric_intersection", "linearization_error",
+     "second_deriv = nodes[:, :-2] - 2.0 * nodes[:, 1:-1] + nodes[:, 2:]",
+     "second_deriv = nodes[:, :-2] - 2.0 * nodes[:, 1:-1] + nodes[:, 1:-1]"),
+    ("de_casteljau_one_round: weights swapped", "curve_helpers", "de_casteljau_one_round",
+     "lambda1 * nodes[:, :-1] + lambda2 * nodes[:, 1:]", "lambda2 * nodes[:, :-1] + lambda1 * nodes[:, 1:]"),
+    ("evaluate_multi_vs: binomial update", "curve_helpers", "evaluate_multi_vs",
+     "binom_val = (binom_val * (degree - index + 1)) / index", "binom_val = (binom_val * (degree - index)) / index"),
+    ("evaluate_multi_vs: result scaled by the wrong weight", "curve_helpers", "evaluate_multi_vs",
+     "        result *= lambda1", "        result *= lambda2"),
+    ("evaluate_multi_vs: loop bound", "curve_helpers", "evaluate_multi_vs",
+     "for index in range(1, degree):", "for index in range(1, degree + 1):"),
+    ("matrix_product: factors exchanged", "helpers", "matrix_product",
+     "return np.dot(mat2.T, mat1.T).T", "return np.dot(mat1.T, mat2.T).T"),
+    ("evaluate_multi_de_casteljau: weights exchanged in the in-place update", "curve_helpers", "evaluate_multi_de_casteljau",
+     "lambda1_wide[:, :, :index] * workspace[:, :, :index]", "lambda2_wide[:, :, :index] * workspace[:, :, :index]"),
+    ("evaluate_multi_de_casteljau: loop stops one round early", "curve_helpers", "evaluate_multi_de_casteljau",
+     "for index in range(degree - 1, 0, -1):", "for index in range(degree - 1, 1, -1):"),
+    ("evaluate_multi_de_casteljau: shifted slice", "curve_helpers", "evaluate_multi_de_casteljau",
+     "* workspace[:, :, 1 : (index + 1)]", "* workspace[:, :, 1:index]"),
+    ("evaluate_multi_barycentric: threshold", "curve_helpers", "evaluate_multi_barycentric",
+     "if num_nodes > 55:", "if num_nodes > 54:"),
+    ("evaluate_multi: sign", "curve_helpers", "evaluate_multi",
+     "one_less = 1.0 - s_vals", "one_less = 1.0 + s_vals"),
+    ("evaluate_hodograph: factor", "curve_helpers", "evaluate_hodograph",
+     "return (num_nodes - 1) * evaluate_multi(", "return num_nodes * evaluate_multi("),
+    ("newton_refine: sign of the update", "curve_helpers", "newton_refine",
+     "return s + delta_s", "return s - delta_s"),
+    ("polygon_collide: `break` (a statement the translator does not know: must be refused)", "helpers", "polygon_collide",
+     "                return False", "                break"),
     ("in_interval: statement the translator does not know (must be refused, not skipped)", "helpers", "in_interval",
      "    return start <= value <= end", "    print(value)\n    return start <= value <= end"),
 ]
@@ -118,6 +184,17 @@ HARMLESS = [
     ("LIMIT: `a <= b` written as `not (b < a)` (parallel_lines_parameters) - equal only in a linear order", False,
      "geometric_intersection", "parallel_lines_parameters",
      [("    if s_val0 <= s_val1:", "    if not (s_val1 < s_val0):", 1)]),
+    ("renamed loop variable (evaluate_multi_vs: index -> k)", True, "curve_helpers", "evaluate_multi_vs",
+     [("index", "k", None)]),
+    ("renamed work array (evaluate_multi_de_casteljau: workspace -> buf)", True, "curve_helpers",
+     "evaluate_multi_de_casteljau", [("workspace", "buf", None)]),
+    ("renamed loop variables (add_intersection: existing_s/existing_t -> es/et)", True, "geometric_intersection",
+     "add_intersection", [("existing_s", "es", None), ("existing_t", "et", None)]),
+    ("renamed list variable (is_separating: params -> ranges)", True, "helpers", "is_separating",
+     [("params", "ranges", None)]),
+    ("reordered independent statements in a loop body (is_separating: max before min)", False, "helpers", "is_separating",
+     [("            min_param = min(min_param, param)\n            max_param = max(max_param, param)\n",
+       "            max_param = max(max_param, param)\n            min_param = min(min_param, param)\n", 1)]),
     ("`elif` chain rewritten as nested `else: if` (wiggle_interval)", False, "helpers", "wiggle_interval",
      [("    elif 1.0 - wiggle < value < 1.0 + wiggle:\n        return 1.0, True\n\n    else:\n        return np.nan, False",
        "    else:\n        if 1.0 - wiggle < value < 1.0 + wiggle:\n            return 1.0, True\n\n"
@@ -176,7 +253,7 @@ def run_case(work, label, edits):
     for tfile in TABLES:
         with open(tfile) as fh:
             ttext += fh.read().rstrip("\n") + "\n\n"
-    imports = [l for l in ttext.split("\n") if l.startswith("import ") and l.strip() != "import BezierVerif.Generated.SrcPy"]
+    imports = [l for l in ttext.split("\n") if l.startswith("import ") and l.strip() not in OWN_MODULES]
     tbody = "\n".join("" if l.startswith("import ") else l for l in ttext.split("\n"))
     g_imports = [l for l in gtext.split("\n") if l.startswith("import ")]
     gbody = "\n".join("" if l.startswith("import ") else l for l in gtext.split("\n"))
